@@ -432,7 +432,7 @@ def run(chk):
         x = recv
         while x[0] in ("ref", "deref"):
             x = x[1]
-        if not (x[0] == "var" and x[2] == "layer"):
+        if x[0] != "var" or not any(k == "term" and (rb.blocks[b0]["term"]["callee"].get("resolved") or "").endswith("Layer::new") for b0, k in rb.defs.get(x[1], [])):
             continue            # continuation chunks address an already finished layer: flags legitimately apply there
         # only the layer under construction (declared by Layer::new in this chunk arm)
         defs = rb.defs.get(x[1], [])
